@@ -4,7 +4,7 @@
     regenerated from command/src/state.rs on every run (CfgState/Gen.v). *)
 From stdpp Require Import gmap strings.
 From Coq Require Import NArith.
-From SV Require Import CfgState.Model CfgState.Spec CfgState.Gen CfgState.GenSteps CfgState.Proofs.
+From SV Require Import CfgState.Model CfgState.Spec CfgState.Gen CfgState.GenSteps CfgState.Proofs C07.Worker.
 Open Scope N_scope.
 
 (** General theorem on step lists: if every fallible step (flood-knob
@@ -91,6 +91,44 @@ Proof.
   - intros. eapply ok_remove_front; eauto.
   - intros. eapply ok_add_backend; eauto.
 Qed.
+
+(** * Worker side (lib/src/server.rs notify_proxys): the worker applies
+    [config_state.dispatch], ignores its result, then invokes the proxy; its
+    answer is the proxy's.  [C07.Worker] models exactly that, generic in the
+    live proxies (coq/C08 proves the complementary [view_tracks_master]). *)
+
+(** the proxy is reached whether or not the worker's ConfigState accepted the command *)
+Theorem worker_proxy_always_invoked :
+  forall fingerprint inames hc_valid steps (live : Type) (proxy : live -> request -> live * bool) w r,
+    w_live live (fst (notify fingerprint inames hc_valid steps live proxy w r)) = fst (proxy (w_live live w) r)
+    /\ snd (notify fingerprint inames hc_valid steps live proxy w r) = snd (proxy (w_live live w) r).
+Proof. intros. apply proxy_always_invoked. Qed.
+
+(** no trace in a worker when both its ConfigState and an atomic proxy reject *)
+Theorem worker_no_trace :
+  forall fingerprint inames hc_valid (live : Type) (proxy : live -> request -> live * bool) w r w',
+    Inv (w_view live w) ->
+    (forall l q l', proxy l q = (l', false) -> l' = l) ->
+    (exists e, snd (dispatch fingerprint inames hc_valid steps_of (w_view live w) r) = Err e) ->
+    notify fingerprint inames hc_valid steps_of live proxy w r = (w', false) -> w' = w.
+Proof.
+  intros fp nm hc live proxy w r w' HI Hpa He Hn.
+  eapply (Worker.worker_no_trace fp nm hc steps_of live proxy); eauto. apply generated_steps_atomic.
+Qed.
+
+(** ... but a command the ConfigState accepts and the proxy refuses is answered
+    with a failure while the worker's view keeps it (kept visible; open finding
+    worker-view-drift, reproduced on the real listener on every run) *)
+Theorem worker_view_drift :
+  exists (proxy : unit -> request -> unit * bool) w r,
+    let fp := fun _ : N => @None N in
+    let nm := fun _ : N => @None (list N) in
+    let hc := fun _ : N => true in
+    let st := fun _ : lkind => [SLookup; SAssign "front_timeout" false] in
+    snd (notify fp nm hc st unit proxy w r) = false
+    /\ w_view unit (fst (notify fp nm hc st unit proxy w r)) <> w_view unit w
+    /\ (forall k, atomic (st k) = true).
+Proof. exact Worker.worker_view_drift. Qed.
 
 (** non-vacuity: a reachable, non-empty state in which a listener patch with
     good fields and one bad validated field is rejected *)
